@@ -3,6 +3,7 @@ CONSTANT N = 4
 CONSTANT CheckMDC = FALSE
 CONSTANT CheckPrefix = TRUE
 CONSTANT CheckKey = TRUE
+CONSTANT AcceptSED = FALSE
 INVARIANT Integrity
 INVARIANT WrongKeyRaises
 INVARIANT UntouchedDecrypts
